@@ -281,7 +281,9 @@ Fixpoint drain_go (s : st) (c : nat) (l : list nat) : st :=
 
 Definition drain_start (s : st) (c : nat) : st :=
   if lock_free s then drain_go (set_lock s true (dlockq s)) c (with_writer (conns s) 0)
-  else goto (set_lock s (dlocked s) (dlockq s ++ [c])) c (PDrainLock WPending).
+  else goto (set_lock s (dlocked s) (dlockq s ++ [c])) c
+            (* a task that cancelled itself in server_event cancels the new waiter future at once *)
+            (PDrainLock (if c_cf (getc s c) then WCancelled else WPending)).
 
 (* body of async with: the connect attempt starts *)
 Definition enter_sem_body (s : st) (c : nat) : st := goto (emit s (EConnect c)) c PConnecting.
